@@ -2,6 +2,7 @@
 package c16
 
 import (
+	"bytes"
 	"fmt"
 	"math"
 	"math/big"
@@ -181,6 +182,33 @@ func labelRefs(c *facet.Ctx, v spec.V) {
 
 // ---------------------------------------------------------------- the round trip
 
+// decoys are marshalled between Marshal(v) and Unmarshal(bytes of v): a round
+// trip must not depend on the encoder being left alone in between (bytes are
+// stored and decoded later in every real use). One decoy is shorter and one
+// longer than most encodings.
+var decoys = func() []cty.Value {
+	long := make([]cty.Value, 48)
+	for i := range long {
+		long[i] = cty.NumberIntVal(int64(i) * 1000003)
+	}
+	return []cty.Value{cty.StringVal("\u00e9decoy"), cty.TupleVal(long), cty.UnknownVal(cty.String).Refine().NotNull().StringPrefixFull("decoy-").NewValue()}
+}()
+
+// interleave marshals the decoys and reports whether that disturbed b, the
+// bytes an earlier Marshal call returned.
+func interleave(b []byte, v cty.Value, c spec.T) *facet.Failure {
+	before := append([]byte(nil), b...)
+	for _, d := range decoys {
+		if _, err, pan := marshal(d, cty.DynamicPseudoType); err != nil || pan != nil {
+			return facet.Failf("decoy-marshal-failed", "Marshal(%#v, dynamic) failed: %v %v", d, err, pan)
+		}
+	}
+	if !bytes.Equal(before, b) {
+		return facet.Failf("marshal-output-overwritten", "the bytes returned by Marshal(%#v, %s) were %s and read %s after later Marshal calls on other values", v, c, clip(before), clip(b))
+	}
+	return nil
+}
+
 type outcome struct {
 	orig, got cty.Value
 	bytes     []byte
@@ -211,6 +239,9 @@ func roundTrip(c *facet.Ctx, in codecgen.Case) (*outcome, *facet.Failure, bool) 
 	}
 	if err != nil {
 		return nil, facet.Failf("marshal-error", "Marshal(%#v, %s) failed: %v", v, in.C, err), true
+	}
+	if f := interleave(b, v, in.C); f != nil {
+		return nil, f, true
 	}
 	exp, mixed := codecgen.ExpectedType(v, in.C)
 	got, err, pan := unmarshal(b, ct)
